@@ -14,7 +14,7 @@ import (
 // VGMapOf builds a TreeBidiMap by the library's own Puts from the constructor (two coupled trees cannot be
 // summarised independently): every insertion order of the pairs is a solver choice because the keys are symbolic.
 func VGMapOf(keys, vals []int) *Map[int, int] {
-	m := NewWith[int, int](cmp.Compare[int], cmp.Compare[int])
+	m := NewWith[int, int](cmp.Compare[int], vValCmp())
 	for i := range keys {
 		m.forwardMap.Put(keys[i], vals[i])
 		m.inverseMap.Put(vals[i], keys[i])
@@ -22,9 +22,19 @@ func VGMapOf(keys, vals []int) *Map[int, int] {
 	return m
 }
 
+// vValCmp: the value comparator (configuration "cmpv": 0 natural, 1 reversed - a different order from the keys').
+func vValCmp() func(a, b int) int {
+	if v.CfgOr("cmpv", 0) == 1 {
+		return func(a, b int) int { return cmp.Compare(b, a) }
+	}
+	return cmp.Compare[int]
+}
+
+func vValOrder() int { return 1 + v.CfgOr("cmpv", 0) }
+
 func VInv(m *Map[int, int]) {
-	rbt.VInv(&m.forwardMap)
-	rbt.VInv(&m.inverseMap)
+	vl.WithOrder(1, func() { rbt.VInv(&m.forwardMap) })
+	vl.WithOrder(vValOrder(), func() { rbt.VInv(&m.inverseMap) })
 	v.Assert(m.forwardMap.Size() == m.inverseMap.Size(), "C10:inv-sizes")
 	for _, k := range m.forwardMap.Keys() {
 		x, _ := m.forwardMap.Get(k)
@@ -36,7 +46,7 @@ func VInv(m *Map[int, int]) {
 func VHMapStep() {
 	keys, vals := maps.VPairs(true)
 	m := VGMapOf(keys, vals)
-	maps.VMapStep(m, keys, vals, maps.VKind{Name: "TreeBidiMap", Bidi: true, Sorted: true, GetKey: m.GetKey, Inv: func() { VInv(m) }})
+	maps.VMapStep(m, keys, vals, maps.VKind{Name: "TreeBidiMap", Bidi: true, Sorted: true, ValDesc: v.CfgOr("cmpv", 0) == 1, GetKey: m.GetKey, Inv: func() { VInv(m) }})
 }
 
 func VHIter() {
@@ -104,7 +114,7 @@ func vJSON(c *Map[int, int]) containers.VJSON {
 		Unmarshal: func(data []byte) error { return json.Unmarshal(data, c) },
 		Inv:     func() { VInv(c) },
 		Step:    func() { k, x := v.Int("sk"), v.Int("sx"); c.Put(k, x); y, ok := c.Get(k); v.Assert(v.And(ok, y == x), "C12:put-after-load") },
-		Fresh:   func() containers.VJSON { return vJSON(NewWith[int, int](cmp.Compare[int], cmp.Compare[int])) },
+		Fresh:   func() containers.VJSON { return vJSON(NewWith[int, int](cmp.Compare[int], vValCmp())) },
 		Object: true, Bidi: true, Keys: c.Keys, Get: c.Get, Ref: func(ks, xs []int) ([]int, []int) { return vl.SortPairs(vl.LastPerKey(ks, xs)) },
 	}
 }
@@ -125,6 +135,6 @@ func VHJSONLoad() {
 
 // VHHistory: D operations in a row from the constructor (see VMapHistory).
 func VHHistory() {
-	m := NewWith[int, int](cmp.Compare[int], cmp.Compare[int])
-	maps.VMapHistory(m, maps.VKind{Name: "TreeBidiMap", Bidi: true, Sorted: true, GetKey: m.GetKey, Inv: func() { VInv(m) }})
+	m := NewWith[int, int](cmp.Compare[int], vValCmp())
+	maps.VMapHistory(m, maps.VKind{Name: "TreeBidiMap", Bidi: true, Sorted: true, ValDesc: v.CfgOr("cmpv", 0) == 1, GetKey: m.GetKey, Inv: func() { VInv(m) }})
 }
